@@ -564,18 +564,20 @@ def layerForward (l : Layer α) (x : Tensor α) : Except Err (Tensor α × Tenso
     | .ok (a, b, un, act, mx) => .ok (a, b, .block un act mx)
     | .error e => .error e
 
+/-- one layer of `_forward`: feed it the previous output, record what it produced -/
+def rangeStep (st : Except Err (List (Tensor α) × List (Tensor α) × List (Recorded α) × Tensor α)) (l : Layer α) :
+    Except Err (List (Tensor α) × List (Tensor α) × List (Recorded α) × Tensor α) :=
+  match st with
+  | .error e => .error e
+  | .ok (pres, posts, recs, x) =>
+    match layerForward l x with
+    | .error e => .error e
+    | .ok (pre, post, r) => .ok (pres ++ [pre], posts ++ [post], recs ++ [r], post)
+
 /-- `_forward(input, from, to)`: run layers `from .. to` in sequence -/
 def runRange (layers : List (Layer α)) (input : Tensor α) :
     Except Err (List (Tensor α) × List (Tensor α) × List (Recorded α)) :=
-  let r := layers.foldl (fun (st : Except Err (List (Tensor α) × List (Tensor α) × List (Recorded α) × Tensor α)) l =>
-    match st with
-    | .error e => .error e
-    | .ok (pres, posts, recs, x) =>
-      match layerForward l x with
-      | .error e => .error e
-      | .ok (pre, post, r) => .ok (pres ++ [pre], posts ++ [post], recs ++ [r], post))
-    (.ok ([], [], [], input))
-  match r with
+  match layers.foldl rangeStep (.ok ([], [], [], input)) with
   | .error e => .error e
   | .ok (a, b, c, _) => .ok (a, b, c)
 
@@ -688,23 +690,27 @@ def skipInput (n : Network α) (act : List (Tensor α)) (i : Nat) : Except Err (
         | .error e => .error e
         | .ok s' => accumulate1 n.skipaccumulation x0 s'
 
+/-- one layer of `Network::forward`: its (skip-combined) input, its output, then the loop connection
+    leaving it, if any -/
+def forwardLayer (n : Network α) (st : Except Err (Trace α)) (il : Nat × Layer α) : Except Err (Trace α) :=
+  match st with
+  | .error e => .error e
+  | .ok (t : Trace α) =>
+    let i := il.1
+    match skipInput n t.act i with
+    | .error e => .error e
+    | .ok x =>
+      match layerForward il.2 x with
+      | .error e => .error e
+      | .ok (pre, post, r) =>
+        let t' : Trace α := { pre := t.pre ++ [pre], act := t.act ++ [post], recs := t.recs ++ [r] }
+        match Assoc.find? n.loopbacks i with
+        | none => .ok t'
+        | some (into, iterations, inskips) => applyLoopback n i into iterations inskips t'
+
 /-- `Network::forward` -/
 def forward (n : Network α) (input : Tensor α) : Except Err (Trace α) :=
-  (List.zip (List.range n.layers.length) n.layers).foldl (fun st il =>
-    match st with
-    | .error e => .error e
-    | .ok (t : Trace α) =>
-      let i := il.1
-      match skipInput n t.act i with
-      | .error e => .error e
-      | .ok x =>
-        match layerForward il.2 x with
-        | .error e => .error e
-        | .ok (pre, post, r) =>
-          let t' : Trace α := { pre := t.pre ++ [pre], act := t.act ++ [post], recs := t.recs ++ [r] }
-          match Assoc.find? n.loopbacks i with
-          | none => .ok t'
-          | some (into, iterations, inskips) => applyLoopback n i into iterations inskips t')
+  (List.zip (List.range n.layers.length) n.layers).foldl (forwardLayer n)
     (.ok { pre := [], act := [input], recs := [] })
 
 /-- `Network::predict`: the last activation -/
@@ -741,6 +747,73 @@ def invertStep (m : List (Nat × List Nat)) (e : Nat × Nat) : List (Nat × List
 def invertSkips (c : List (Nat × Nat)) : List (Nat × List Nat) :=
   c.foldl invertStep []
 
+/-- backward of one layer of any kind → `(input gradient, weight gradient, bias gradient)`;
+    `recd` is the layer's extra recording (max-pool indices / a block's inner trace) -/
+def layerBackward (l : Layer α) (g input output : Tensor α) (recd : Except Err (Recorded α)) :
+    Except Err (Tensor α × WGrad α × BGrad α) :=
+  match l with
+  | .dense l => match l.backward g input output with
+    | .ok (a, b, c) => .ok (a, .one b, .one c) | .error e => .error e
+  | .conv l => match l.backward g input output with
+    | .ok (a, b, c) => .ok (a, .one b, .one c) | .error e => .error e
+  | .deconv l => match l.backward g input output with
+    | .ok (a, b, c) => .ok (a, .one b, .one c) | .error e => .error e
+  | .maxpool l =>
+    match recd with
+    | .ok (.max m) => match l.backward g m with
+      | .ok a => .ok (a, .one (Tensor.single []), .one none) | .error e => .error e
+    | _ => .error .reject
+  | .feedback f =>
+    match recd with
+    | .ok (.block un act _) => match f.backward g un act with
+      | .ok (a, b, c) => .ok (a, .block b, .block c) | .error e => .error e
+    | _ => .error .index
+
+/-- add to the gradient `cur` handed on by layer `idx` the contribution of the skip connection
+    `idx → target`: the gradient with respect to the input the target processed (`ig` itself for a
+    connection from a layer to itself), reshaped to the source's shape -/
+def addSkipGradient (len idx : Nat) (ig : Tensor α) (processed : List (Tensor α))
+    (acc : Except Err (Tensor α)) (target : Nat) : Except Err (Tensor α) :=
+  match acc with
+  | .error e => .error e
+  | .ok cur =>
+    let g2 : Except Err (Tensor α) :=
+      if target = idx then .ok ig else
+      match checkedSub len target with
+      | .error e => .error e
+      | .ok k => L.get processed k
+    match g2 with
+    | .error e => .error e
+    | .ok g2 =>
+      match g2.reshape cur.shape with
+      | .error e => .error e
+      | .ok g2' => cur.add g2'
+
+/-- the state of the reverse walk: weight gradients, bias gradients, the gradients handed on
+    (the objective gradient first), and the processed-input gradients aligned with them -/
+abbrev BackState (α : Type) := List (WGrad α) × List (BGrad α) × List (Tensor α) × List (Tensor α)
+
+/-- one layer of the reverse walk -/
+def backwardStep (n : Network α) (t : Trace α) (inv : List (Nat × List Nat))
+    (st : Except Err (BackState α)) (il : Nat × Layer α) : Except Err (BackState α) :=
+  match st with
+  | .error e => .error e
+  | .ok (wgs, bgs, grads, processed) =>
+    let idx := il.1
+    match skipInput n t.act idx, L.get t.pre idx, grads.getLast? with
+    | .ok input, .ok output, some g =>
+      match layerBackward il.2 g input output (L.get t.recs idx) with
+      | .error e => .error e
+      | .ok (ig, wg, bg) =>
+        let ig' : Except Err (Tensor α) :=
+          match Assoc.find? inv idx with
+          | none => .ok ig
+          | some targets => targets.foldl (addSkipGradient n.layers.length idx ig processed) (.ok ig)
+        match ig' with
+        | .error e => .error e
+        | .ok ig' => .ok (wgs ++ [wg], bgs ++ [bg], grads ++ [ig'], processed ++ [ig])
+    | _, _, _ => .error .index
+
 /-- `Network::backward` → per layer (last first) weight and bias gradients, plus the chain of
     gradients handed to the preceding layer (`gradients` in Rust: the objective gradient first).
     `processed` keeps, aligned with it, the gradients with respect to the input each layer actually
@@ -748,65 +821,10 @@ def invertSkips (c : List (Nat × Nat)) : List (Nat × List Nat) :=
     (repair of the chained-skip defect: the handed-on gradient already contains other skips). -/
 def backward (n : Network α) (gradient : Tensor α) (t : Trace α) :
     Except Err (List (WGrad α) × List (BGrad α) × List (Tensor α)) :=
-  let inv := invertSkips n.connect
-  let len := n.layers.length
-  (List.zip (List.range len) n.layers).reverse.foldl
-    (fun (st : Except Err (List (WGrad α) × List (BGrad α) × List (Tensor α) × List (Tensor α))) il =>
-      match st with
-      | .error e => .error e
-      | .ok (wgs, bgs, grads, processed) =>
-        let idx := il.1
-        match skipInput n t.act idx, L.get t.pre idx, grads.getLast? with
-        | .ok input, .ok output, some g =>
-          let r : Except Err (Tensor α × WGrad α × BGrad α) :=
-            match il.2 with
-            | .dense l => match l.backward g input output with
-              | .ok (a, b, c) => .ok (a, .one b, .one c) | .error e => .error e
-            | .conv l => match l.backward g input output with
-              | .ok (a, b, c) => .ok (a, .one b, .one c) | .error e => .error e
-            | .deconv l => match l.backward g input output with
-              | .ok (a, b, c) => .ok (a, .one b, .one c) | .error e => .error e
-            | .maxpool l =>
-              match L.get t.recs idx with
-              | .ok (.max m) => match l.backward g m with
-                | .ok a => .ok (a, .one (Tensor.single []), .one none) | .error e => .error e
-              | _ => .error .reject
-            | .feedback f =>
-              match L.get t.recs idx with
-              | .ok (.block un act _) => match f.backward g un act with
-                | .ok (a, b, c) => .ok (a, .block b, .block c) | .error e => .error e
-              | _ => .error .index
-          match r with
-          | .error e => .error e
-          | .ok (ig, wg, bg) =>
-            let ig' : Except Err (Tensor α) :=
-              match Assoc.find? inv idx with
-              | none => .ok ig
-              | some targets =>
-                targets.foldl (fun (acc : Except Err (Tensor α)) target =>
-                  match acc with
-                  | .error e => .error e
-                  | .ok cur =>
-                    -- a connection from a layer to itself feeds the layer's own input gradient back once more
-                    let g2 : Except Err (Tensor α) :=
-                      if target = idx then .ok ig else
-                      match checkedSub len target with
-                      | .error e => .error e
-                      | .ok k => L.get processed k
-                    match g2 with
-                    | .error e => .error e
-                    | .ok g2 =>
-                      match g2.reshape cur.shape with
-                      | .error e => .error e
-                      | .ok g2' => cur.add g2') (.ok ig)
-            match ig' with
-            | .error e => .error e
-            | .ok ig' => .ok (wgs ++ [wg], bgs ++ [bg], grads ++ [ig'], processed ++ [ig])
-        | _, _, _ => .error .index)
-      (.ok ([], [], [gradient], [gradient])) |> fun r =>
-    match r with
-    | .error e => .error e
-    | .ok (w, b, g, _) => .ok (w, b, g)
+  match (List.zip (List.range n.layers.length) n.layers).reverse.foldl
+      (backwardStep n t (invertSkips n.connect)) (.ok ([], [], [gradient], [gradient])) with
+  | .error e => .error e
+  | .ok (w, b, g, _) => .ok (w, b, g)
 
 /-- forward, objective, backward for one sample: what the closure in `learn` computes -/
 def sampleGradients (n : Network α) (input target : Tensor α) :
